@@ -56,7 +56,7 @@ CHECKS = {
          "For every message kind, products of a 14-value boundary alphabet per u32 field, 9 payload sizes up to and beyond the frame limit, 36 hash/id patterns and every bit vector up to 19 (quick) / 24 (thorough) bits: emitted bytes equal the reference BEP3 encoder, Frame::parse of those bytes (alone and followed by junk) yields the same fields, consumes exactly the message and re-serialises identically; bitfield bit order checked in both directions.",
          "reference codec harness/src/refwire.rs written from BEP3; nothing claimed outside the field alphabet", "DESIGN.md C07"),
  "C15": ("exploration", ENUM, "E-ENUM",
-         "Every value of three index-addressable families (depth<=3, width<=2 quick / 3 thorough, leaf alphabet incl. i64 extremes, delimiter-like strings, prefix-related keys) is encoded by the real BEncoder and compared byte for byte with the harness's canonical encoder, decoded by the real BDecoder and compared with the original, and re-encoded; non-canonical key order decodes to the same value.",
+         "Every value of three index-addressable families (depth<=3, width<=2 quick / 3 thorough, leaf alphabet incl. i64 extremes, delimiter-like strings, prefix-related and non-UTF-8 keys) is encoded by the real BEncoder and compared byte for byte with the harness's canonical encoder, decoded by the real BDecoder and compared with the original, and re-encoded; non-canonical key order decodes to the same value.",
          "reference encoder/parser harness/src/refb.rs", "DESIGN.md C15"),
  "C16": ("exploration", ENUM, "E-ENUM",
          "EVERY byte string over the 10-symbol alphabet 'ilde012:-a' up to length 8 (quick, 1.1e8 strings) / 9 (thorough), every truncation and single-symbol substitution of a document corpus, and a nesting ladder run in subprocesses: accept/reject and decoded values must agree with the reference recogniser and nothing may panic or crash. One known finding (unterminated containers accepted at end of input) is listed in known_findings.json and identified by a completion predicate; every other disagreement fails the check.",
